@@ -37,6 +37,7 @@ type c20Case struct {
 	Root    int        `json:"root"`
 	Shape   []string   `json:"shape"` // nest: container kinds from the outside in: "s" slice, "m" map, "p" pointer, "i" interface
 	Repeat  int        `json:"repeat"`
+	Leaf    string     `json:"leaf"` // nest: what sits innermost: "" an int; empty containers of several types otherwise
 	Outcome string     `json:"outcome"` // ok | err | panic | crash | timeout
 	Detail  string     `json:"detail"`
 }
@@ -85,8 +86,34 @@ func buildHeap(nodes []heapNode, root int) any {
 }
 
 // buildNest builds repeat copies of the shape nested inside each other around a leaf.
-func buildNest(shape []string, repeat int) any {
-	var v any = 7
+func leafValue(leaf string) any {
+	switch leaf {
+	case "es":
+		return []any{}
+	case "ns":
+		return []any(nil)
+	case "em":
+		return map[string]any{}
+	case "nm":
+		return map[string]any(nil)
+	case "ti":
+		return []int{}
+	case "tm":
+		return map[string]int{}
+	case "st":
+		return struct{}{}
+	case "sx":
+		return struct{ X []int }{}
+	case "a0":
+		return [0]int{}
+	case "pe":
+		return &[]string{}
+	}
+	return 7
+}
+
+func buildNest(shape []string, repeat int, leaf string) any {
+	v := leafValue(leaf)
 	for r := 0; r < repeat; r++ {
 		for i := len(shape) - 1; i >= 0; i-- {
 			switch shape[i] {
@@ -116,7 +143,7 @@ func c20Run(c *c20Case) {
 	if c.Kind == "heap" {
 		v = buildHeap(c.Nodes, c.Root)
 	} else {
-		v = buildNest(c.Shape, c.Repeat)
+		v = buildNest(c.Shape, c.Repeat, c.Leaf)
 	}
 	b, err := jsonv2.Marshal(v)
 	if err != nil {
@@ -206,6 +233,13 @@ func c20Cases() []c20Case {
 		add(c20Case{Name: fmt.Sprintf("nest-slice-%d", d), Kind: "nest", Shape: []string{"s"}, Repeat: d})
 		add(c20Case{Name: fmt.Sprintf("nest-map-%d", d), Kind: "nest", Shape: []string{"m"}, Repeat: d})
 		add(c20Case{Name: fmt.Sprintf("nest-ptrslice-%d", d), Kind: "nest", Shape: []string{"p", "s", "i"}, Repeat: d})
+	}
+	// the innermost value is itself a container, of every kind that has a short cut for "empty"
+	for _, leaf := range []string{"es", "ns", "em", "nm", "ti", "tm", "st", "sx", "a0", "pe"} {
+		for _, d := range []int{9998, 9999, 10000} {
+			add(c20Case{Name: fmt.Sprintf("leaf-%s-slice-%d", leaf, d), Kind: "nest", Shape: []string{"s"}, Repeat: d, Leaf: leaf})
+			add(c20Case{Name: fmt.Sprintf("leaf-%s-map-%d", leaf, d), Kind: "nest", Shape: []string{"m"}, Repeat: d, Leaf: leaf})
+		}
 	}
 	add(c20Case{Name: "nest-mixed-10000", Kind: "nest", Shape: []string{"s", "m", "p", "s", "i"}, Repeat: 3334}) // 10002 containers
 	add(c20Case{Name: "nest-mixed-9999", Kind: "nest", Shape: []string{"s", "m", "p", "s", "i"}, Repeat: 3333})  // 9999 containers
